@@ -180,3 +180,47 @@ def run(ctx):
         if gotm != [G.rotate_op(Gop, R) for R in G.id_map_ops(n)]:
             ctx.fail('clifford_rotation_map', 'rows are not the rotated generators', dict(G=Gop, got=gotm))
         ctx.case(('methods', Gop, P), O.anticommute(Gop, P))
+    # rotations reached through gates: clifford_rotation_gate(G) and CliffordGate.set_generator, forward = rotation by G on the
+    # gate's qubits, backward = rotation by -G; gates covering the whole register of the object and gates on a strict subset
+    for _ in range(ctx.budget(120, 1500)):
+        n = rng.choice([1, 1, 2, 2, 3, 4, 5])
+        whole = rng.random() < 0.5
+        if whole:
+            full = (tuple(rng.choice('XYZ') for _ in range(n)), rng.choice([0, 2]))
+        else:
+            full = G.rand_herm(rng, n, nonid=True)
+        idx = [i for i, c in enumerate(full[0]) if c != 'I']
+        cond = (tuple(full[0][i] for i in idx), full[1])
+        how = rng.choice(['clifford_rotation_gate', 'set_generator'])
+        if how == 'clifford_rotation_gate':
+            gate = pc.clifford_rotation_gate(impl.pauli(full))
+        else:
+            gate = impl.CI.CliffordGate(*idx)
+            gate.set_generator(impl.pauli(cond))
+        Ps = [G.rand_op(rng, n) for _ in range(4)]
+        rows, r = G.rand_tableau(rng, n)
+        minus = (full[0], (full[1] + 2) % 4)
+        ctx.case(('gate', how, full, tuple(Ps)), any(O.anticommute(full, P) for P in Ps),
+                 sample=dict(op='rotation gate', built=how, G=full, whole_register=len(idx) == n))
+        ctx.count('gate:%s:%s' % (how, 'whole' if len(idx) == n else 'part'))
+        try:
+            for direction, gen in (('forward', full), ('backward', minus)):
+                fn = getattr(gate, direction)
+                got = impl.ops_of(fn(impl.plist(Ps)))
+                want = [G.rotate_op(gen, P) for P in Ps]
+                if got != want:
+                    ctx.fail('CliffordGate.' + direction, 'a rotation gate run %s does not rotate a list by %sG' % (direction, '' if direction == 'forward' else '-'),
+                             dict(G=full, built=how, qubits=idx, Ps=Ps, got=got, want=want))
+                got1 = impl.ops_of(fn(impl.pauli(Ps[0])))
+                if got1 != want[0]:
+                    ctx.fail('CliffordGate.' + direction, 'a rotation gate run %s does not rotate a Pauli operator by %sG' % (direction, '' if direction == 'forward' else '-'),
+                             dict(G=full, built=how, qubits=idx, P=Ps[0], got=got1, want=want[0]))
+                st = fn(impl.state(rows, r))
+                if impl.ops_of(st) != [G.rotate_op(gen, R) for R in rows] or st.r != r:
+                    ctx.fail('CliffordGate.' + direction, 'a rotation gate run %s does not rotate the tableau rows of a state by %sG' % (direction, '' if direction == 'forward' else '-'),
+                             dict(G=full, built=how, qubits=idx, rows=rows, r=r, got=impl.ops_of(st)))
+            back = impl.ops_of(gate.backward(gate.forward(impl.plist(Ps))))
+            if back != Ps:
+                ctx.fail('CliffordGate.backward', 'backward (rotation by -G) does not undo forward (rotation by G)', dict(G=full, built=how, qubits=idx, Ps=Ps, got=back))
+        except Exception as e:
+            ctx.fail('CliffordGate', 'implementation raised %r' % e, dict(G=full, built=how, qubits=idx))
